@@ -213,15 +213,12 @@ func t2Retype(c trienode.Node) trienode.Node {
 	return (*trienode.ValueNode)(&h)
 }
 
-// alterT2 returns the altered node; inPlace keeps the object's flags (its cached hash), as a holder of
-// the in-memory ProofNodeSet could; otherwise the node is rebuilt from its content (as from the wire).
-func alterT2(n trienode.Node, op string, junk *felt.Felt, inPlace bool) trienode.Node {
+// alterT2 returns the altered node, REBUILT from its content with fresh flags (no cached hash): a proof
+// received from outside never carries nodeFlag.Hash.
+func alterT2(n trienode.Node, op string, junk *felt.Felt) trienode.Node {
 	switch x := n.(type) {
 	case *trienode.BinaryNode:
 		nb := &trienode.BinaryNode{Flags: trienode.NewNodeFlag()}
-		if inPlace {
-			nb = x.Copy()
-		}
 		nb.Children = x.Children
 		switch op {
 		case "l:=junk":
@@ -244,9 +241,6 @@ func alterT2(n trienode.Node, op string, junk *felt.Felt, inPlace bool) trienode
 		return nb
 	case *trienode.EdgeNode:
 		ne := &trienode.EdgeNode{Flags: trienode.NewNodeFlag()}
-		if inPlace {
-			ne = x.Copy()
-		}
 		ne.Child, ne.Path = x.Child, x.Path
 		switch op {
 		case "c:=junk":
@@ -427,7 +421,7 @@ func runMembership(v *variant, maxv int, bt *builtTries, a pAction, shape []pSha
 			below = &h
 		}
 	default:
-		nn := alterT2(pairs[idx].n, a.Tm.Op, junk, a.Tm.Mode == "mem")
+		nn := alterT2(pairs[idx].n, a.Tm.Op, junk)
 		if nn == nil {
 			return got, "", fmt.Errorf("tamper %s does not apply to real node %d (%T)", a.Tm.Op, idx, pairs[idx].n)
 		}
@@ -576,6 +570,16 @@ func runRange(v *variant, bt *builtTries, a pAction) (rv rangeVerdict) {
 	return rangeVerdict{accepted: true, more: more}
 }
 
+// rangeKey: the known families range-proof:unsound:* / range-proof:incomplete:* describe the LEGACY verifier
+// (it keeps subtree hashes of the edge proofs instead of recomputing them); the same symptom on trie2 has
+// never been observed and must not hide behind those prefixes.
+func rangeKey(impl, family, detail string) string {
+	if impl == "legacy" {
+		return fmt.Sprintf("range-proof:%s:legacy:%s", family, detail)
+	}
+	return fmt.Sprintf("range-proof-%s:%s:%s", impl, family, detail)
+}
+
 // ------------------------------------------------------------------ the replayer
 
 // proofVariant is an embedding whose last model bit is the last real bit: the leaves hang where the
@@ -665,17 +669,15 @@ func TestProofReplay(t *testing.T) {
 						case op == "retype-l" || op == "retype-r" || op == "retype-c":
 							key = "membership-proof:retyped-child:" + impl
 							what += ": trie2.VerifyProof ends the walk at any child TYPED as value, so a hash child retyped as value 'proves' an inner hash as the key's value"
-						case s.A.Tm.Mode == "mem":
-							key = "membership-proof:cached-hash-trusted:" + impl
-							what += ": trie2.VerifyProof hashes proof nodes with hasher.hash, which trusts nodeFlag.Hash; Prove returns nodes carrying that cache, so an object altered in place passes"
 						}
 						report(si, key, what, fmt.Sprintf("error or value %d", s.Truth), got.kind+" "+got.raw)
 					}
 					// conformance with the model's transcription of VerifyProof
-					// in-place tampering (cached hash kept) makes the verifier walk forged structure; what it then meets
-					// depends on padding edges the model does not have: only the oracles above apply
-					loose := s.A.Tm.Mode == "mem"
-					if !loose && (got.kind != s.Out.Kind || (got.kind == "leaf" && got.v != s.Out.V)) {
+					if s.A.Tm.Mode == "mem" {
+						report(si, "proof-harness:unsupported-tamper-mode", "in-place tampering with the cached hash kept is not a proof tampering and is not supported", nil, nil)
+						continue
+					}
+					if got.kind != s.Out.Kind || (got.kind == "leaf" && got.v != s.Out.V) {
 						report(si, fmt.Sprintf("membership-proof:verify-differs-from-model:%s:%s", op, impl),
 							"the real VerifyProof outcome differs from Proof.tla's transcription", s.Out, got.kind+" "+fmt.Sprint(got.v)+" "+got.raw)
 					}
@@ -709,11 +711,11 @@ func TestProofReplay(t *testing.T) {
 					case s.Expect == "accept" && !rv.accepted && len(s.P) == 0:
 						report(si, "range-proof:empty-trie-rejected:"+impl, "the (true) empty claim on the empty trie is rejected: "+rv.raw, "accept", rv.raw)
 					case s.Expect == "accept" && !rv.accepted:
-						report(si, "range-proof:incomplete:"+impl+":true-claim-rejected", "a true range claim is rejected: "+rv.raw, "accept", rv.raw)
+						report(si, rangeKey(impl, "incomplete", "true-claim-rejected"), "a true range claim is rejected: "+rv.raw, "accept", rv.raw)
 					case s.Expect == "accept" && rv.more != s.More:
-						report(si, "range-proof:incomplete:"+impl+":has-more-wrong", "a true range claim is accepted with a wrong has-more flag", s.More, rv.more)
+						report(si, rangeKey(impl, "incomplete", "has-more-wrong"), "a true range claim is accepted with a wrong has-more flag", s.More, rv.more)
 					case s.Expect == "reject" && rv.accepted:
-						report(si, fmt.Sprintf("range-proof:unsound:%s:%s", impl, s.A.M), "a false range claim ("+s.A.M+") is accepted", "reject", "accepted")
+						report(si, rangeKey(impl, "unsound", s.A.M), "a false range claim ("+s.A.M+") is accepted", "reject", "accepted")
 					case s.Expect == "left-edge" && rv.accepted:
 						counts["left-edge-accepted-"+impl]++
 						report(si, "range-proof:left-edge-omission:"+impl,
